@@ -741,6 +741,222 @@ func min(a, b int) int {
 }
 
 // ---------------------------------------------------------------------------------------------
+// lagging consumer: what a drain handed out must stay what it was until the consumer gets to it
+
+// lagCase: K rounds of (several receives, then one drain); the consumer looks at the drained slices late.
+//
+//	mode "sink"       K Flushes into a sink of capacity K; only then the consumer takes the K slices
+//	mode "drainfill"  Drain()/DrainWithContext() + Fill() called directly, results kept until the end
+//	mode "gated"      a consumer goroutine takes every slice off the sink at once (as the forwarder's Run
+//	                  does) but merges slice i only after flush i+Lag has completed
+//	mode "concurrent" as gated, but the merge of slice i runs while the producer already performs the next
+//	                  round and flush (the race detector sees a reused result buffer)
+type lagCase struct {
+	Kind      string              `json:"kind"` // "lag"
+	Mode      string              `json:"mode"`
+	Rounds    [][][]ref.Datapoint `json:"rounds"` // round -> batches -> datapoints
+	Spots     int                 `json:"spots"`
+	Lag       int                 `json:"lag"`
+	Producers int                 `json:"producers"`
+}
+
+type consumedSlice struct {
+	n    int
+	flat map[string]*ref.Series
+}
+
+func (c *checker) runLag(cs lagCase) {
+	r := c.r
+	K := len(cs.Rounds)
+	usesFlush := cs.Mode != "drainfill"
+	if usesFlush && c.flushBroken {
+		r.Event("lag_skipped_flush_broken", 1)
+		return
+	}
+	sink := make(chan []*gostatsd.MetricMap, K+1)
+	mc := gostatsd.NewMetricConsolidator(cs.Spots, false, time.Hour, sink)
+
+	receiveRound := func(k int) {
+		type op struct {
+			mm *gostatsd.MetricMap
+			ms []*gostatsd.Metric
+		}
+		ops := make([]op, len(cs.Rounds[k]))
+		for i, b := range cs.Rounds[k] {
+			if (i+k)%2 == 0 {
+				ops[i] = op{mm: gen.MapOf(b)}
+			} else {
+				ops[i] = op{ms: metricsOf(b)}
+			}
+		}
+		do := func(o op) {
+			if o.mm != nil {
+				mc.ReceiveMetricMap(o.mm)
+			} else {
+				mc.ReceiveMetrics(o.ms)
+			}
+		}
+		if cs.Producers <= 1 {
+			for _, o := range ops {
+				do(o)
+			}
+			return
+		}
+		var wg sync.WaitGroup
+		for g := 0; g < cs.Producers; g++ {
+			wg.Add(1)
+			go func(g int) {
+				defer wg.Done()
+				for i := g; i < len(ops); i += cs.Producers {
+					do(ops[i])
+				}
+			}(g)
+		}
+		wg.Wait()
+	}
+
+	// the consumer's work on one drained slice, done when the slice is finally looked at
+	acc := gostatsd.NewMetricMap(false)
+	var results []consumedSlice
+	consume := func(slice []*gostatsd.MetricMap) {
+		merged := gostatsd.MergeMaps(slice)
+		results = append(results, consumedSlice{n: len(slice), flat: ref.FromMap(merged)})
+		if merged != nil {
+			acc.Merge(merged)
+		}
+	}
+
+	switch cs.Mode {
+	case "sink":
+		for k := 0; k < K; k++ {
+			receiveRound(k)
+			mc.Flush()
+		}
+		for k := 0; k < K; k++ {
+			consume(<-sink)
+		}
+	case "drainfill":
+		held := make([][]*gostatsd.MetricMap, 0, K)
+		for k := 0; k < K; k++ {
+			receiveRound(k)
+			if k%2 == 0 {
+				held = append(held, mc.Drain())
+			} else {
+				held = append(held, mc.DrainWithContext(context.Background()))
+			}
+			mc.Fill()
+		}
+		for _, sl := range held {
+			consume(sl)
+		}
+	default: // gated, concurrent
+		const (
+			take  = 1
+			merge = 2
+		)
+		cmds := make(chan int)
+		acks := make(chan struct{})
+		done := make(chan struct{})
+		go func() {
+			defer close(done)
+			var pending [][]*gostatsd.MetricMap
+			for cmd := range cmds {
+				switch cmd {
+				case take:
+					pending = append(pending, <-sink)
+					acks <- struct{}{}
+				case merge:
+					sl := pending[0]
+					pending = pending[1:]
+					if cs.Mode == "gated" {
+						consume(sl)
+						acks <- struct{}{}
+					} else {
+						acks <- struct{}{} // the producer goes on while this slice is being merged
+						consume(sl)
+					}
+				}
+			}
+		}()
+		merged := 0
+		for k := 0; k < K; k++ {
+			receiveRound(k)
+			mc.Flush()
+			cmds <- take
+			<-acks
+			if k >= cs.Lag {
+				cmds <- merge
+				<-acks
+				merged++
+			}
+		}
+		for ; merged < K; merged++ {
+			cmds <- merge
+			<-acks
+		}
+		close(cmds)
+		select {
+		case <-done:
+		case <-time.After(30 * time.Second):
+			r.Inconclusive("lag-consumer-watchdog")
+			return
+		}
+	}
+
+	variant := "consolidator-lag-" + cs.Mode
+	if len(results) != K {
+		r.Violation(variant+":slice-count", fmt.Sprintf("%d rounds, %d slices consumed", K, len(results)), cs)
+		return
+	}
+	var all []ref.Datapoint
+	for k, res := range results {
+		var dps []ref.Datapoint
+		for _, b := range cs.Rounds[k] {
+			dps = append(dps, b...)
+		}
+		all = append(all, dps...)
+		if res.n != cs.Spots {
+			r.Violation(variant+":drain-size", fmt.Sprintf("the slice of round %d has %d maps for %d slots when consumed", k, res.n, cs.Spots), cs)
+		}
+		want := foldOf(dps)
+		r.Event("lagged_slices_inspected", 1)
+		if d := append(ref.Diff(res.flat, want.Series, ref.DiffOpts{IgnoreGauge: true}), want.CheckGauges(res.flat)...); len(d) > 0 {
+			r.Violation(variant+":drained-slice-changed-before-consumption", fmt.Sprintf("the slice drained in round %d of %d (lag %d), inspected when the consumer finally merged it, no longer holds exactly the datapoints received in that round: %s", k, K, cs.Lag, strings.Join(d, " | ")), cs)
+		}
+	}
+	c.compare(variant, ref.FromMap(acc), foldOf(all), true, cs)
+	var batches [][]ref.Datapoint
+	for _, rd := range cs.Rounds {
+		batches = append(batches, rd...)
+	}
+	if o := analyse(&family{Batches: batches}); o.nontrivi {
+		r.Nontrivial(fmt.Sprintf("lag|%s|k%d|l%d|s%d|p%d|ov%04b", cs.Mode, K, cs.Lag, cs.Spots, cs.Producers, o.mask))
+	}
+}
+
+func genLag(rng *rand.Rand) lagCase {
+	cs := lagCase{Kind: "lag", Mode: []string{"sink", "drainfill", "gated", "concurrent"}[rng.Intn(4)], Spots: 1 + rng.Intn(4), Producers: 1 + rng.Intn(2)}
+	K := 3 + rng.Intn(4)
+	if cs.Mode == "gated" || cs.Mode == "concurrent" {
+		cs.Lag = 1 + rng.Intn(3)
+	} else {
+		cs.Lag = K
+	}
+	o := exactOpts(rng)
+	o.IDBase = 1 << 20 // timer values and set members are unique ids: no two rounds look alike
+	for k := 0; k < K; k++ {
+		var round [][]ref.Datapoint
+		for i, n := 0, 1+rng.Intn(4); i < n; i++ {
+			round = append(round, gen.Datapoints(rng, o, 1+rng.Intn(4)))
+		}
+		// every round is recognisable even when it drew no timer or set
+		round[0] = append(round[0], ref.Datapoint{Type: gen.Counter, Name: "round.marker", Tags: []string{fmt.Sprintf("round:%d", k)}, Value: float64(k + 1), Rate: 1, Timestamp: 1000})
+		cs.Rounds = append(cs.Rounds, round)
+	}
+	return cs
+}
+
+// ---------------------------------------------------------------------------------------------
 // generators
 
 func genFamily(rng *rand.Rand) *family {
@@ -880,7 +1096,7 @@ func genHold(rng *rand.Rand) holdCase {
 func TestCheck(t *testing.T) {
 	r := mon.Start(t, "C07")
 	defer r.Finish()
-	r.Rule("cases: a family of 2..8 batches of 1..6 datapoints over a tiny key space (1-2 names, 1-2 tags, 2 sources, 4 types, timestamps within 2..6 ticks; three quarters with small integer values and dyadic rates for exact sums, the rest arbitrary floats with 1e-9 tolerance on sampled counts) is aggregated by the real code along: Merge into an empty map in a random permutation, Merge into the first batch, MergeMaps, a random bracketing (tree) of pairwise merges, MetricAggregator.ReceiveMap, re-grouping of the datapoints into 1..6 other batches, consolidator slots filled sequentially via ReceiveMetricMap/ReceiveMetrics then Drain+MergeMaps, the same with two Flushes to a sink, the tag stage's collision merge (all tags dropped), the cloud stage's parking merge; plus consolidators fed by 2..4 concurrent callers with 0..2 concurrent Flushes (race detector on), and a forced interleaving where one caller's slot is held at the hook point while Flush/Drain runs. Input maps are rebuilt from the datapoints for every route. Each route is compared with the reference fold of the datapoints (counters add, timer multiset and sampled count, set union, gauge among the values carried at the newest timestamp, newest timestamp). Non-trivial: at least one key occurs in two or more batches with different newest timestamps; distinct by (route, number of batches, types of such keys, largest number of batches sharing a key, position of the newest batch in the merge order).")
+	r.Rule("cases: a family of 2..8 batches of 1..6 datapoints over a tiny key space (1-2 names, 1-2 tags, 2 sources, 4 types, timestamps within 2..6 ticks; three quarters with small integer values and dyadic rates for exact sums, the rest arbitrary floats with 1e-9 tolerance on sampled counts) is aggregated by the real code along: Merge into an empty map in a random permutation, Merge into the first batch, MergeMaps, a random bracketing (tree) of pairwise merges, MetricAggregator.ReceiveMap, re-grouping of the datapoints into 1..6 other batches, consolidator slots filled sequentially via ReceiveMetricMap/ReceiveMetrics then Drain+MergeMaps, the same with two Flushes to a sink, the tag stage's collision merge (all tags dropped), the cloud stage's parking merge; plus consolidators fed by 2..4 concurrent callers with 0..2 concurrent Flushes (race detector on), a forced interleaving where one caller's slot is held at the hook point while Flush/Drain runs, and lagging consumers: 3..6 rounds of (1..4 receives by 1..2 producers, then Flush into a buffered sink, or Drain/DrainWithContext+Fill directly) whose drained slices are only merged after all rounds, or by a consumer goroutine that takes each slice off the sink at once but merges it 1..3 flushes later (gated, or overlapping the producer's next round) - every slice, inspected when it is finally consumed, must hold exactly its own round (unique timer/set ids and a round marker), and the total must be the reference fold. Input maps are rebuilt from the datapoints for every route. Each route is compared with the reference fold of the datapoints (counters add, timer multiset and sampled count, set union, gauge among the values carried at the newest timestamp, newest timestamp). Non-trivial: at least one key occurs in two or more batches with different newest timestamps; distinct by (route, number of batches, types of such keys, largest number of batches sharing a key, position of the newest batch in the merge order).")
 	r.Assume("ref.Folded / ref.FromMap (harness) are the independent reference; MetricMap.Receive builds the input batches")
 	c := &checker{r: r}
 
@@ -904,6 +1120,12 @@ func TestCheck(t *testing.T) {
 		cs := genHold(rng)
 		r.Case("hold spots=%d flush=%v preload=%d others=%d", cs.Spots, cs.UseFlush, len(cs.Preload), len(cs.Others))
 		c.hold(cs, exposure)
+	}
+	nLag := r.N(2400, 400000)
+	for i := 0; i < nLag; i++ {
+		cs := genLag(rng)
+		r.Case("lag mode=%s rounds=%d lag=%d spots=%d producers=%d", cs.Mode, len(cs.Rounds), cs.Lag, cs.Spots, cs.Producers)
+		c.runLag(cs)
 	}
 	nConc := r.N(800, 300000)
 	for i := 0; i < nConc && c.concStuck < 2; i++ {
@@ -964,6 +1186,12 @@ func replay(t *testing.T, c *checker, p []byte) {
 		mon.ReplayCase(p, &cs)
 		for i := 0; i < 200; i++ {
 			c.runConcurrent(cs)
+		}
+	case "lag":
+		var cs lagCase
+		mon.ReplayCase(p, &cs)
+		for i := 0; i < 50; i++ {
+			c.runLag(cs)
 		}
 	case "hold":
 		var cs holdCase
